@@ -168,6 +168,16 @@ def step (_ : Unit) (ws : List String) : Unit × String :=
   | ["chunk-dec", h] => dec? h decChunk showChunk
   | "cert-enc" :: r => enc? (cert? r) encCert
   | ["cert-dec", h] => dec? h decCert showCert
+  -- a PEM bundle: every block is a certificate of its own and must be consumed entirely
+  | ["certs-dec", hs] =>
+    (match (hs.splitOn ",").mapM fromHex with
+     | none => "bad-op"
+     | some bs =>
+       match bs.mapM (fun b => match decCert b with
+                               | .ok (c, []) => some (showCert c)
+                               | _ => none) with
+       | some outs => ";".intercalate outs
+       | none => "err")
   | "intent-enc" :: r => enc? (intent? r) encIntent
   | ["intent-dec", h] => dec? h decIntent showIntent
   | "ag-enc" :: r => enc? (ag? r) encAg
